@@ -93,6 +93,13 @@ impl SubCheck for Construct {
         let fo = FixedOffset::east_opt(off).ok_or("harness: offset")?;
         ensure_eq!(fo.local_minus_utc(), off, "FixedOffset::east_opt({off}).local_minus_utc()");
         ensure_eq!(FixedOffset::west_opt(-off).map(|o| o.local_minus_utc()), Some(off), "west_opt");
+        #[allow(deprecated)]
+        {
+            // the deprecated panicking constructors name the same offsets
+            ensure_eq!(crate::guard::guard(|| FixedOffset::east(off)).ok(), Some(fo), "FixedOffset::east({off})");
+            ensure_eq!(crate::guard::guard(|| FixedOffset::west(-off)).ok(), Some(fo), "FixedOffset::west({})", -off);
+            ensure_eq!(fo.utc_minus_local(), -off, "utc_minus_local");
+        }
         let dt = call("from_utc_datetime", || fo.from_utc_datetime(&nu))?;
         ensure_eq!(dt.naive_utc(), nu, "from_utc_datetime(u).naive_utc()");
         ensure_eq!(dt.offset().local_minus_utc(), off, "offset kept");
@@ -107,6 +114,15 @@ impl SubCheck for Construct {
             let nl = call("naive_local", || dt.naive_local())?;
             ensure_eq!(key(conv::model_of(&nl)), key(w), "naive_local()");
             ensure_eq!(conv::unix_day_of(call("date_naive", || dt.date_naive())?), w.day, "date_naive()");
+            // the deprecated zoned date holds the wall-clock date and gives the value back with its time
+            #[allow(deprecated)]
+            {
+                let zd = call("date", || dt.date())?;
+                ensure_eq!(conv::unix_day_of(zd.naive_local()), w.day, "date().naive_local()");
+                ensure_eq!((zd.year() as i64, zd.ordinal()), { let f = cal::fields(w.day); (f.year, f.ordinal) }, "date() year / ordinal");
+                ensure_eq!(zd.offset().local_minus_utc(), off, "date().offset()");
+                ensure_eq!(call("date().and_time", || zd.and_time(dt.time()))?, Some(dt), "date().and_time(time())");
+            }
             // building from the wall clock is the identity
             match call("from_local_datetime", || fo.from_local_datetime(&nl))? {
                 MappedLocalTime::Single(b) => {
@@ -435,6 +451,10 @@ pub fn run(ctx: &Ctx) {
         let ok = s > -86_400 && s < 86_400;
         if FixedOffset::east_opt(s).is_some() != ok || (s != i32::MIN && FixedOffset::west_opt(s).is_some() != ok) {
             ctx.push_failure("construct_and_read", &(Ndt { day: 0, secs: 0, frac: 0 }, s, 0), format!("FixedOffset::east_opt/west_opt({s}) acceptance"));
+        }
+        #[allow(deprecated)]
+        if crate::guard::guard(|| FixedOffset::east(s)).is_ok() != ok || (s != i32::MIN && crate::guard::guard(|| FixedOffset::west(s)).is_ok() != ok) {
+            ctx.push_failure("construct_and_read", &(Ndt { day: 0, secs: 0, frac: 0 }, s, 0), format!("deprecated FixedOffset::east/west({s}): panics exactly when the _opt form refuses"));
         }
     }
 }
